@@ -11,7 +11,7 @@ class Obl:
 
     def __init__(self, name, props, crate, harness, tier="quick", timeout=300, fn=None,
                  shape=None, unwind=None, genfile=None, interesting=(), desc="", functions=(),
-                 rules=None, bucket=""):
+                 rules=None, bucket="", heavy=False):
         self.name = name  # unique obligation name
         self.props = props
         self.crate = crate
@@ -27,6 +27,7 @@ class Obl:
         self.functions = functions
         self.rules = rules  # callable(nl, maxline, length) -> {regex: bound} (per-loop unwind bounds)
         self.bucket = bucket
+        self.heavy = heavy  # needs > 5 GB: run few at a time with a 13 GB limit
 
 
 # ----------------------------------------------------------------------------
@@ -204,7 +205,7 @@ class ShapeFamily:
 
     def __init__(self, fn, props, crate, module, genfile, desc, functions, quick_shapes=None,
                  thorough_shapes=None, timeout=300, unwind=shape_unwind, interesting=(),
-                 shape_filter=None, rules=None):
+                 shape_filter=None, rules=None, heavy=False):
         self.fn = fn
         self.props = props
         self.crate = crate
@@ -219,6 +220,7 @@ class ShapeFamily:
         self.interesting = interesting
         self.shape_filter = shape_filter
         self.rules = rules
+        self.heavy = heavy
 
     def obligations(self, tier):
         out = []
@@ -241,7 +243,7 @@ class ShapeFamily:
                            timeout=self.timeout, fn=self.fn, shape=sh, unwind=self.unwind(sh),
                            genfile=self.genfile, interesting=self.interesting,
                            desc=self.desc + " [shape %s = %r]" % (sh.name, sh.descr()),
-                           functions=self.functions, rules=self.rules, bucket=nl_bucket(sh)))
+                           functions=self.functions, rules=self.rules, bucket=nl_bucket(sh), heavy=self.heavy))
         return out
 
 
@@ -260,7 +262,7 @@ class NulFamily(ShapeFamily):
             o = Obl(name, self.props, self.crate, self.module + "::" + name, tier="quick", timeout=self.timeout,
                     fn=self.fn, shape=a, unwind=self.unwind(a), genfile=self.genfile, interesting=(),
                     desc=self.desc + " [shape %s = %r]" % (a.name, a.descr()), functions=self.functions,
-                    rules=self.rules, bucket="nul")
+                    rules=self.rules, bucket="nul", heavy=self.heavy)
             o.gen_shape = shp
             out.append(o)
         return out
@@ -330,61 +332,69 @@ FAMILIES = [
     NulFamily("c14_reader_quit_tiny", ["C14"], SEARCHER, CORE_MOD, GEN,
               "reader strategy (capacity 1, 1-byte reads), quit detection: delivered is a PREFIX of the search of the input cut at the "
               "first NUL, no NUL reaches the sink, one binary notice at that offset, finish reports it",
-              READER_FUNCS + ("ReadByLine::fill", "LineBuffer::fill"), timeout=1200, rules=searcher_rules(2)),
+              READER_FUNCS + ("ReadByLine::fill", "LineBuffer::fill"), heavy=True, timeout=1200, rules=searcher_rules(2)),
     NulFamily("c14_reader_quit_wide", ["C14"], SEARCHER, CORE_MOD, GEN,
               "reader strategy (capacity 4, 2-byte reads), quit detection: prefix / no NUL / one notice",
-              READER_FUNCS, timeout=1200, rules=searcher_rules(2)),
+              READER_FUNCS, heavy=True, timeout=1200, rules=searcher_rules(2)),
     NulFamily("c14_reader_convert_tiny", ["C14"], SEARCHER, CORE_MOD, GEN,
               "reader strategy (capacity 1, 1-byte reads), convert detection: delivered == search of the input with every NUL "
               "replaced by the terminator + one binary notice at the first NUL",
-              READER_FUNCS + ("line_buffer::replace_bytes",), timeout=1200, rules=searcher_rules(2), two=True),
+              READER_FUNCS + ("line_buffer::replace_bytes",), heavy=True, timeout=1200, rules=searcher_rules(2), two=True),
     NulFamily("c14_reader_convert_mid", ["C14"], SEARCHER, CORE_MOD, GEN,
-              "reader strategy (capacity 2, 3-byte reads), convert detection", READER_FUNCS, timeout=1200,
+              "reader strategy (capacity 2, 3-byte reads), convert detection", READER_FUNCS, heavy=True, timeout=1200,
               rules=searcher_rules(2), two=True),
     ShapeFamily("c02_reader_ctx_tiny", ["C02"], SEARCHER, CORE_MOD, GEN,
                 "ReadByLine over LineBufferReader with initial capacity 1 and 1-byte reads (a roll and a grow at every byte) "
                 "== grep model (== slice strategy); symbolic hit table, A,B in 0..=1, invert, line numbers",
-                READER_FUNCS, timeout=1200, rules=searcher_rules(2), shape_filter=lambda sh: sh.nl <= 3 and len(sh.hay) <= 6),
+                READER_FUNCS, heavy=True, timeout=1200, rules=searcher_rules(2),
+                quick_shapes=["q_empty", "q_one_unterm", "q_one", "q_blank", "q_two", "q_blank_mid", "q_blank_first", "q_blank_last",
+                              "q_crlf_mix", "q_crlf_blank", "q_nul", "z_nl_in_record"],
+                shape_filter=lambda sh: sh.nl <= 3 and len(sh.hay) <= 7),
+    ShapeFamily("c02_reader_reuse", ["C02", "C03"], SEARCHER, CORE_MOD, GEN,
+                "one line buffer reused for two consecutive reader searches (as Searcher does per file): both runs == grep model "
+                "(offsets and byte count start from zero again)",
+                READER_FUNCS + ("LineBufferReader::new", "LineBuffer::clear"), heavy=True, timeout=1200, rules=searcher_rules(2),
+                quick_shapes=["q_two", "q_blank_mid"]),
     ShapeFamily("c02_reader_ctx_mid", ["C02"], SEARCHER, CORE_MOD, GEN,
-                "reader strategy, capacity 2 / 3-byte reads == grep model", READER_FUNCS, timeout=1200, rules=searcher_rules(2),
+                "reader strategy, capacity 2 / 3-byte reads == grep model", READER_FUNCS, heavy=True, timeout=1200, rules=searcher_rules(2),
                 quick_shapes=["q_two", "q_blank_mid", "q_crlf_mix"], shape_filter=lambda sh: sh.nl <= 3 and len(sh.hay) <= 6),
     ShapeFamily("c02_reader_ctx_wide", ["C02"], SEARCHER, CORE_MOD, GEN,
-                "reader strategy, capacity 4 / 2-byte reads == grep model", READER_FUNCS, timeout=1200, rules=searcher_rules(2),
+                "reader strategy, capacity 4 / 2-byte reads == grep model", READER_FUNCS, heavy=True, timeout=1200, rules=searcher_rules(2),
                 quick_shapes=["q_two", "q_blank_mid", "q_nul"], shape_filter=lambda sh: sh.nl <= 3 and len(sh.hay) <= 6),
     ShapeFamily("c02_reader_stop", ["C02"], SEARCHER, CORE_MOD, GEN,
                 "reader strategy (capacity 1, 1-byte reads) == grep model with stop-on-nonmatch ON (incl. final byte count == slice strategy's)",
-                READER_FUNCS, timeout=1200, rules=searcher_rules(2), quick_shapes=["q_two", "q_blank_mid"], shape_filter=lambda sh: sh.nl <= 3 and len(sh.hay) <= 6),
+                READER_FUNCS, heavy=True, timeout=1200, rules=searcher_rules(2), quick_shapes=["q_two", "q_blank_mid"], shape_filter=lambda sh: sh.nl <= 3 and len(sh.hay) <= 6),
     ShapeFamily("c02_reader_passthru", ["C02"], SEARCHER, CORE_MOD, GEN,
                 "reader strategy (capacity 2, 3-byte reads) == grep model with passthru ON",
-                READER_FUNCS, timeout=1200, rules=searcher_rules(2), quick_shapes=["q_two", "q_blank_mid"], shape_filter=lambda sh: sh.nl <= 3 and len(sh.hay) <= 6),
+                READER_FUNCS, heavy=True, timeout=1200, rules=searcher_rules(2), quick_shapes=["q_two", "q_blank_mid"], shape_filter=lambda sh: sh.nl <= 3 and len(sh.hay) <= 6),
     ShapeFamily("c16_slice", ["C16"], SEARCHER, CORE_MOD, GEN,
                 "slice strategy: sink refuses (stop) or fails at symbolic event index k: delivered == prefix of full "
                 "stream (+ exactly one finish after stop, none after error)",
-                SLOW_E2E_FUNCS, timeout=900, rules=searcher_rules(2), shape_filter=lambda sh: sh.nl <= 3 and len(sh.hay) <= 6),
+                SLOW_E2E_FUNCS, timeout=900, rules=searcher_rules(2), quick_shapes=["q_one", "q_two", "q_blank_mid", "q_crlf_mix", "q_four"], shape_filter=lambda sh: sh.nl <= 4 and len(sh.hay) <= 9),
     ShapeFamily("c16_reader", ["C16"], SEARCHER, CORE_MOD, GEN,
                 "reader strategy: sink refuses or fails at symbolic event index k: prefix property",
-                READER_FUNCS, timeout=900, rules=searcher_rules(2), shape_filter=lambda sh: sh.nl <= 2 and len(sh.hay) <= 4),
+                READER_FUNCS, heavy=True, timeout=900, rules=searcher_rules(2), shape_filter=lambda sh: sh.nl <= 2 and len(sh.hay) <= 4),
     ShapeFamily("c16_reader_ioerr", ["C16"], SEARCHER, CORE_MOD, GEN,
                 "reader strategy: read() fails (Other/Interrupted) at symbolic call index j: error returned, no finish, prefix",
-                READER_FUNCS, timeout=900, rules=searcher_rules(2), shape_filter=lambda sh: sh.nl <= 2 and len(sh.hay) <= 4),
+                READER_FUNCS, heavy=True, timeout=900, rules=searcher_rules(2), shape_filter=lambda sh: sh.nl <= 2 and len(sh.hay) <= 4),
     ShapeFamily("c13_multiline", ["C13"], SEARCHER, CORE_MOD, GEN,
                 "MultiLine::run == lines covered by the successive matches of a span table (merged runs, contexts, invert, "
                 "passthru, numbering); EVERY span table of the shape (<=3 bytes) / every table with <=2 match starts (4-5 bytes) "
                 "x 5 configurations enumerated in-harness; line numbering symbolic",
-                MULTI_FUNCS, timeout=1500, rules=multi_rules(2), unwind=lambda sh: 800,
+                MULTI_FUNCS, heavy=True, timeout=1500, rules=multi_rules(2), unwind=lambda sh: 800,
                 quick_shapes=["q_empty", "q_one_unterm", "q_one", "q_blank", "m_two_unterm", "q_two"], thorough_shapes=["m_blank_mid", "m_three"]),
     ShapeFamily("c13_multiline_lookbehind", ["C13"], SEARCHER, CORE_MOD, GEN,
                 "MultiLine::run with look-behind patterns: besides the span table E, every alternative answer E0[p] at a "
                 "resumption point taken as start-of-haystack is enumerated; the result must follow the whole-input table E",
-                MULTI_FUNCS, timeout=1500, rules=multi_rules(2), unwind=lambda sh: 800,
+                MULTI_FUNCS, heavy=True, timeout=1500, rules=multi_rules(2), unwind=lambda sh: 800,
                 quick_shapes=["q_one_unterm", "q_one", "m_two_unterm", "q_two"], thorough_shapes=[]),
     ShapeFamily("c16_multiline_refuse", ["C16"], SEARCHER, CORE_MOD, GEN,
                 "multi-line strategy: sink refuses at every call index k (enumerated) for every span table: prefix + exactly one finish",
-                MULTI_FUNCS, timeout=1500, rules=multi_rules(2), unwind=lambda sh: 800,
+                MULTI_FUNCS, heavy=True, timeout=1500, rules=multi_rules(2), unwind=lambda sh: 800,
                 quick_shapes=["q_one", "m_two_unterm", "q_two"], thorough_shapes=[]),
     ShapeFamily("c16_multiline_error", ["C16"], SEARCHER, CORE_MOD, GEN,
                 "multi-line strategy: sink fails at every call index k (enumerated): error returned, prefix, no finish",
-                MULTI_FUNCS, timeout=1500, rules=multi_rules(2), unwind=lambda sh: 800,
+                MULTI_FUNCS, heavy=True, timeout=1500, rules=multi_rules(2), unwind=lambda sh: 800,
                 quick_shapes=["q_one", "m_two_unterm"], thorough_shapes=[]),
 ]
 
@@ -436,8 +446,8 @@ def run_kani(group, ctx):
         groups = {}
         for crate, obls in by_crate.items():
             for o in obls:
-                groups.setdefault((crate, o.bucket if o.rules else ""), []).append(o)
-        for (crate, bucket), obls in sorted(groups.items()):
+                groups.setdefault((crate, o.bucket if o.rules else "", bool(getattr(o, "heavy", False))), []).append(o)
+        for (crate, bucket, heavy), obls in sorted(groups.items()):
             # biggest shapes first so the tail of the schedule is short
             obls = sorted(obls, key=lambda o: -(len(o.shape.hay) if o.shape else 0))
             tmo = max(o.timeout for o in obls)
@@ -457,8 +467,8 @@ def run_kani(group, ctx):
                 for o in obls:
                     seen_fn.setdefault(o.fn, o.harness)
                 probes = list(seen_fn.values())
-            res = sc.run(crate, [o.harness for o in obls], jobs=ctx["jobs"], harness_timeout=tmo,
-                         unwind_rules=rules, probes=probes)
+            res = sc.run(crate, [o.harness for o in obls], jobs=(min(4, ctx["jobs"]) if heavy else ctx["jobs"]),
+                         harness_timeout=tmo, unwind_rules=rules, probes=probes, mem_gb=(13 if heavy else 6))
             cbmc_args = list(sc.last_cbmc_args)
             unwindset_used = list(sc.last_unwindset)
             for o in obls:
